@@ -265,14 +265,16 @@ def witnesses(pid, ctx):
 def selftest(pid, base_keys):
     """Thorough tier, checker self-validation: every seeded change kept for this property under /verif/seeded is applied to a
     scratch copy of /repo/rust (outside /repo and /verif, removed afterwards), the scratch copy is re-analysed and the property's
-    rules must report a violation that the unchanged tree does not have.  The verdict on the property still comes from /repo;
+    rules must report a violation that the unchanged tree does not have (breaking changes) or stay silent (behaviour-preserving
+    refactorings, kind "neutral").  The verdict on the property still comes from /repo;
     a missed seeded change is recorded in the evidence (checker weakness), it is not a violation of the property."""
     import shutil
     import tempfile
 
     seeded = os.path.join(VERIF, "seeded")
-    out = {"variants": [], "detected": 0, "missed": 0, "skipped": 0}
+    out = {"variants": [], "detected": 0, "missed": 0, "skipped": 0, "neutral_silent": 0, "neutral_false_alarm": 0}
     ids = []
+    kinds = {}
     for d in sorted(os.listdir(seeded)) if os.path.isdir(seeded) else []:
         mp = os.path.join(seeded, d, "meta.json")
         if os.path.exists(mp):
@@ -280,8 +282,9 @@ def selftest(pid, base_keys):
                 m = json.load(open(mp))
             except Exception:
                 continue
-            if m.get("property") == pid and m.get("kind", "breaking") == "breaking":
+            if m.get("property") == pid and m.get("kind", "breaking") in ("breaking", "neutral"):
                 ids.append(d)
+                kinds[d] = m.get("kind", "breaking")
     if not ids:
         return out
     scratch = os.path.join(tempfile.gettempdir(), "verif-selftest-%d" % os.getuid())
@@ -308,7 +311,15 @@ def selftest(pid, base_keys):
                 out["variants"].append({"id": sid, "result": "skipped", "why": "scratch analysis failed: %s" % str(e)[:200]})
                 out["skipped"] += 1
                 continue
-            if new:
+            if kinds.get(sid) == "neutral":
+                # a behaviour-preserving refactoring: the rules must stay silent on it
+                if new:
+                    out["neutral_false_alarm"] += 1
+                    out["variants"].append({"id": sid, "result": "FALSE-ALARM", "by": new[:4]})
+                else:
+                    out["neutral_silent"] += 1
+                    out["variants"].append({"id": sid, "result": "silent"})
+            elif new:
                 out["detected"] += 1
                 out["variants"].append({"id": sid, "result": "detected", "by": new[:4]})
             else:
@@ -374,7 +385,7 @@ def main():
     st_result = None
     if tier == "thorough" and os.environ.get("VERIF_SELFTEST", "1") != "0":
         st_result = selftest(pid, {v["key"] for v in all_viol})
-        ctx.note("self-test on a scratch copy: %d seeded variants of the current tree re-analysed, %d detected, %d missed, %d skipped: %s" % (len(st_result["variants"]), st_result["detected"], st_result["missed"], st_result["skipped"], "; ".join("%s=%s" % (v["id"], v["result"]) for v in st_result["variants"])))
+        ctx.note("self-test on a scratch copy: %d seeded variants of the current tree re-analysed; breaking: %d detected, %d missed; refactorings: %d silent, %d false alarms; %d skipped: %s" % (len(st_result["variants"]), st_result["detected"], st_result["missed"], st_result.get("neutral_silent", 0), st_result.get("neutral_false_alarm", 0), st_result["skipped"], "; ".join("%s=%s" % (v["id"], v["result"]) for v in st_result["variants"])))
 
     # known findings
     kf_path = os.path.join(VERIF, "known_findings.json")
